@@ -494,7 +494,9 @@ pub fn mask_chain_program(r: &mut Rng) -> Vec<u8> {
     let mut bs: Vec<Vec<u8>> = vec![];
     for i in 0..n {
         let mut a = vm::Asm::new(0);
-        a.push_u(i as u64);
+        // several chains over one slot: their spans land in one packed word, in the order the
+        // flattening meets them
+        a.push_u(if r.chance(1, 3) { 0 } else { i as u64 });
         a.op(0x54);
         let steps = 2 + r.below(4);
         if r.chance(1, 3) {
@@ -511,7 +513,7 @@ pub fn mask_chain_program(r: &mut Rng) -> Vec<u8> {
             match r.below(7) {
                 0 | 1 => {
                     // right shift by a constant
-                    let k = [0u64, 8, 96, 128, 160, 200, 248, 250, 255, 256, 300][r.below(11)];
+                    let k = [0u64, 8, 16, 96, 100, 128, 160, 200, 248, 250, 255, 256, 300][r.below(13)];
                     a.push_u(k);
                     a.op(0x1c);
                 }
@@ -533,7 +535,7 @@ pub fn mask_chain_program(r: &mut Rng) -> Vec<u8> {
                 }
                 _ => {
                     // mask: `len` one-bits starting at `off`
-                    let len = [1usize, 6, 8, 32, 64, 128, 160, 255, 256][r.below(9)];
+                    let len = [1usize, 6, 8, 16, 32, 64, 128, 160, 255, 256][r.below(10)];
                     let off = [0usize, 0, 0, 8, 96, 100, 128, 200, 250][r.below(9)];
                     let mut w = vec![0u8; 32];
                     for b in off..(off + len).min(256) {
